@@ -36,3 +36,44 @@ pub fn address_escapes(b: &Box<u32>) -> String {
     let p = (&**b) as *const u32 as usize;
     format!("{}", p)
 }
+
+// C03 positive controls: a back end that looks at type syntax
+pub mod ast {
+    pub struct Program { pub body: Vec<Statement> }
+    pub enum Statement { Let(Param), TypeAlias(Box<TypeAliasDeclaration>) }
+    pub struct Param { pub name: String, pub type_annotation: Option<Box<TypeAnnotation>> }
+    pub enum TypeAnnotation { Keyword(TypeKeyword), Array(Box<TypeAnnotation>) }
+    pub struct TypeKeyword { pub kind: u8 }
+    pub struct TypeAliasDeclaration { pub name: String, pub ty: TypeAnnotation }
+}
+pub mod backend {
+    use super::ast::*;
+    pub fn emit(n: u32) -> u32 { n + 1 }
+    pub fn compile(p: &Program) -> u32 {
+        let mut ops = 0;
+        for s in &p.body {
+            match s {
+                Statement::Let(param) => {
+                    if param.type_annotation.is_some() { ops = emit(ops); }
+                    ops += param.name.len() as u32;
+                }
+                Statement::TypeAlias(_) => { ops = emit(ops); }
+            }
+        }
+        ops
+    }
+}
+
+// C15 positive/negative controls for the modular-conversion helper rule
+pub mod c15 {
+    pub fn bad_to_int32(n: f64) -> i32 {
+        let t = n.trunc();
+        t as i32
+    }
+    pub fn good_to_uint32(n: f64) -> u32 {
+        if n.is_nan() || n.is_infinite() { return 0; }
+        let mut m = n.trunc() % 4294967296.0;
+        if m < 0.0 { m += 4294967296.0; }
+        m as u32
+    }
+}
